@@ -36,6 +36,10 @@ TYPES = [
     "pkg.Kind",
     "dict",
     "list",
+    # deeper nesting
+    "Optional[List[Optional[int]]]",
+    "Dict[str, List[int]]",
+    "Union[int, str, float]",
 ]
 
 
@@ -52,9 +56,9 @@ def defaults_for(t):
     d = [("absent", None)]
     b = base_of(t)
     if b in ("int",) or t == "Union[int, str]":
-        d += [("int", 5), ("zero", 0), ("negint", -5), ("bigint", 1234)]
+        d += [("int", 5), ("zero", 0), ("negint", -5), ("bigint", 1234), ("hugeint", 10 ** 20)]
     if b == "float":
-        d += [("float", 0.5), ("negfloat", -0.5), ("intfloat", 2.0)]
+        d += [("float", 0.5), ("negfloat", -0.5), ("intfloat", 2.0), ("smallfloat", 1e-07)]
     if b == "str":
         d += [("str", "a")]
     if t == "Literal[1, 2]":
@@ -73,6 +77,10 @@ def defaults_for(t):
         d += [("code", "```[1, 2]```")]
     if t == "dict":
         d += [("code", "```{'k': 1}```")]
+    if t == "Dict[str, List[int]]":
+        d += [("code", "```{'k': [1, 2]}```")]
+    if t == "Optional[List[Optional[int]]]":
+        d += [("code", "```[1, None]```")]
     if t == "pkg.Kind":
         d += [("code", "```pkg.Kind.A```")]
     return d
@@ -86,6 +94,7 @@ DOCS = [
     ("colon", "the value: see below"),
     ("multiline", "the value\nsecond line of it"),
     ("tick", "use `x` here"),
+    ("unicode", "die Größe – naïve ☃ value"),
     ("nodoc", None),
 ]
 DOCS_BASIC = DOCS[:1]
